@@ -31,7 +31,7 @@ META = {
     "id": "C14",
     "coq_targets": ["Props/C14.vo", "Extract/Extract_C14.vo"],
     "technique": "Coq proof of the reshaping around the three formats (CSV rows/header -> explicit-map import; split_position_attr -> rename + _combine_multi_value_props; FeatureDict dump_json -> from_json; activate-vs-recompute of existing track ids) with the file IO as explicit oracle hypotheses + end-to-end differential round trips on the implementation (the property is its own oracle) + correspondence of the extracted model with the files the implementation writes and the graphs it reads back",
-    "level_text": "Theorems C14_csv_roundtrip / C14_csv_roundtrip_exact / C14_geff_position_roundtrip / C14_geff_attrs_roundtrip / C14_internal_featuredict_roundtrip / C14_track_ids_kept hold for graphs of every size and positions of every length (CSV: 2 or 3 axes as the exporter writes them); pandas/json IO enters as the hypothesis io x = x, geff IO as the modelled transposition geff_columns. The identity on the implementation (all attributes, segmentation, scale, FeatureDict) is established by testing only: every generated tracks object is exported and re-imported in all three formats and compared field by field.",
+    "level_text": "Theorems C14_csv_roundtrip / C14_csv_roundtrip_exact / C14_geff_position_roundtrip / C14_geff_attrs_roundtrip / C14_internal_featuredict_roundtrip / C14_track_ids_kept hold for graphs of every size and positions of every length (CSV: 2 or 3 axes as the exporter writes them); pandas/json IO enters as the hypothesis io x = x, geff IO as the modelled transposition geff_columns. The identity on the implementation (all attributes, segmentation, scale, FeatureDict) is established by testing only: every generated tracks object is exported and re-imported in all three formats and compared field by field. Source tie: the import pipeline of the model (rename, combination of list-mapped columns, id integerisation, edge derivation, structural validation, graph construction, handle_segmentation; whole CSV build = import_csv, whole GEFF build = import_geff) equals, for all arguments, the code translated on every run from _tracks_builder.py, csv/_import.py, geff/_import.py and _validation.py (Gen/ImportPipeline_gen.v; Proofs/ImportTie.v, 24 closed theorems); pandas dtype inference, geff's id validators and file reading stay oracle inputs. Source tie: the export side of the model (CSV rows and header, the relabelled label image with its dtype choice and the empty selection, GEFF subgraph and the chunk loop masking the array, split_position_attr, FeatureDict dump / from_json) equals, for all arguments, the code translated on every run from csv/_export.py, geff/_export.py, internal_format.py and _feature_dict.py (Gen/ExportPipeline_gen.v; Proofs/ExportTie.v, 21 closed theorems); every file write is an event carrying exactly the value handed to the writer.",
     "level_note": "Trusted: Coq kernel, extraction (ExtrOcamlBasic), OCaml driver, Python harness. Modelled not verified: pandas DataFrame/to_csv/read_csv, geff.write/read_to_memory/construct, json, np.save/np.load, zarr, networkx node_link_data; their effect is compared value by value on every generated case (model command C for the geff property arrays, X/I for the CSV table).",
     "design_ref": "DESIGN.md section 9 (C14)",
     "assumptions": [
@@ -42,7 +42,8 @@ META = {
         "a position attribute that is not a vector of ndim-1 numbers (UserUpdateNodeAttrs(pos=5) on tracks without segmentation) is outside the domain (counted as bad_position_skipped)",
         "model correspondence of the geff property arrays covers attributes present on every node (the 'missing' masks of partially present attributes are exercised by the end-to-end comparison only)",
     ],
-    "trusted": ["pandas to_csv/read_csv, geff write/read_to_memory/construct, json dump/load, np.save/load: oracles of the theorems; each is exercised and compared on every generated tracks object"],
+    "trusted": ["translators harness/translate_import.py, translate_export.py (closed idiom tables; fail closed) with coq/Model/PyRt6.v, PyRt7.v",
+                "pandas to_csv/read_csv, geff write/read_to_memory/construct, json dump/load, np.save/load: oracles of the theorems; each is exercised and compared on every generated tracks object"],
 }
 
 STD = {"time": 0, "pos": 1, "track_id": 2, "lineage_id": 3, "z": 10, "y": 11, "x": 12, "id": 20, "parent_id": 21, "t": 22}
@@ -793,6 +794,31 @@ def evaluate(seed, kind, idx, stats, violations, samples, distinct, jobs_out, wa
                         "impl_output": {f: ("identical" if results.get(f, {}).get("tracks") is not None else "not compared") for f in RT},
                         "model_output": "identity"})
     return evals
+
+
+def pre_build(ctx):
+    # re-translate the import pipeline (Gen/ImportPipeline_gen.v, tied by Proofs/ImportTie.v)
+    import translate_import
+
+    ok, msg = translate_import.regenerate()
+    if not ok:
+        raise RuntimeError("translator refused the import sources: %s" % msg)
+    import translate_numpy_utils
+
+    ok, msg = translate_numpy_utils.regenerate_relabel()
+    if not ok:
+        raise RuntimeError("translator refused _import_segmentation.py: %s" % msg)
+    # re-translate the export side (Gen/ExportPipeline_gen.v, tied by Proofs/ExportTie.v)
+    import translate_export
+
+    ok, msg = translate_export.regenerate()
+    if not ok:
+        raise RuntimeError("translator refused the export sources: %s" % msg)
+    import translate_utils
+
+    ok, msg = translate_utils.regenerate()
+    if not ok:
+        raise RuntimeError("translator refused _utils.py: %s" % msg)
 
 
 def run(ctx):
